@@ -247,3 +247,33 @@ func TestOrder(t *testing.T) {
 		ev.Sample(c)
 	})
 }
+
+// TestFlood: one call that completes hundreds of batches for one partition and leaves a partial batch open, under a BatchTimeout
+// of microseconds, so that the timer of the open batch fires (and further submitters arrive) while the completed batches are
+// still on their way to the queue; then a second submitter hammering short calls into the same partition.  Anything that
+// hands batches to the partition's queue outside the critical section that sealed them shows up as a log out of order.
+func TestFlood(t *testing.T) {
+	rapid.Check(t, func(t *rapid.T) {
+		bs := rapid.IntRange(2, 3).Draw(t, "batchSize")
+		n := rapid.IntRange(400, 3000).Draw(t, "batches")*bs + rapid.IntRange(1, bs-1).Draw(t, "tail")
+		c := wsim.Case{Brokers: 1, ProduceMax: rapid.SampledFrom([]int16{2, 7, 8}).Draw(t, "produceMax"), BatchSize: bs, BatchBytes: 1 << 20,
+			BatchTimeoutMs: 1, BatchTimeoutUs: rapid.IntRange(5, 80).Draw(t, "batchTimeoutUs"), MaxAttempts: 2, BackoffMinMs: 1, BackoffMaxMs: 2, Acks: -1,
+			Async: rapid.Bool().Draw(t, "async"), Balancer: "first", WriterTopic: true, WriteTimeoutMs: 20000, CallTimeoutMs: 60000,
+			Topics: []string{"ta"}, Partitions: []int{rapid.IntRange(1, 2).Draw(t, "partitions")}, SettleMs: 5000}
+		msgs := make([]wsim.Msg, n)
+		for i := range msgs {
+			msgs[i] = wsim.Msg{KeyLen: -1, ValueSize: 8}
+		}
+		c.Callers = [][]wsim.Call{{{Msgs: msgs}}}
+		// further submitters: short calls in quick succession (each opens or fills a batch of its own)
+		for k, extra := 0, rapid.IntRange(0, 2).Draw(t, "extraSubmitters"); k < extra; k++ {
+			var calls []wsim.Call
+			for i, m := 0, rapid.IntRange(50, 300).Draw(t, "extraCalls"); i < m; i++ {
+				calls = append(calls, wsim.Call{Msgs: msgs[:1+(i+k)%bs]})
+			}
+			c.Callers = append(c.Callers, calls)
+		}
+		labels, _ := check(t, c)
+		ev.Case(fmt.Sprintf("flood bs%d us%d async%v callers%d n%d", bs, c.BatchTimeoutUs, c.Async, len(c.Callers), n/100), true, append(labels, "flood")...)
+	})
+}
